@@ -20,12 +20,21 @@ def render(tokens, style):
     for i, t in enumerate(tokens):
         k = t["k"]
         if k in ("op", "un"):
-            s = (SYM if style == 1 else KW)[t["s"]]
+            s = (SYM if style in (1, 4) else KW)[t["s"]]
         elif k == "id":
             s = RENAME[t["s"]] if style == 2 else RENAME3[t["s"]] if style == 3 else t["s"]
         else:
             s = t["s"]
         out.append(s)
+    if style == 4:
+        # compact: symbolic aliases and no blank anywhere it is not needed to keep two tokens apart
+        # (two names / numbers / keywords next to each other); a binary minus then touches the digit after it
+        text = ""
+        for i, s_ in enumerate(out):
+            if text and ((text[-1].isalnum() or text[-1] == "_") and (s_[0].isalnum() or s_[0] == "_")) and not (tokens[i - 1]["k"] == "num" and tokens[i]["k"] == "id"):
+                text += " "
+            text += s_
+        return text
     if style == 1:
         text = ""
         for i, s in enumerate(out):
@@ -78,7 +87,7 @@ def check(tier, seed, replay=None):
         raw += cs
         cases = []
         for i, c in enumerate(raw):
-            styles = (0, 1, 2, 3) if tier == "thorough" else ((i + seed) % 4,)
+            styles = (0, 1, 2, 3, 4) if tier == "thorough" else ((i + seed) % 5,)
             for st in styles:
                 cases.append(with_text(c, st))
     events = core.rv_parallel("parse", cases, prop, procs=8)
@@ -100,9 +109,9 @@ def check(tier, seed, replay=None):
         "samples": samples,
         "evaluations": sum(s[3] for s in v.stats),
         "distinct_nontrivial": sum(1 for s in v.stats if s[2] >= 5),
-        "rule": "one event = one token string from spec/parse/TokGen.tla rendered in one of four spellings (keywords / symbolic aliases with tight implicit products / literal-prefixed identifiers /"
-                " keyword-prefixed identifiers), parsed by the real front end and compared by value with Pratt!Parse at all assignments over {0,1,2,3,5,7};"
-                " non-trivial = at least 5 tokens; quick: seeded stride sample, thorough: every string in all four spellings",
+        "rule": "one event = one token string from spec/parse/TokGen.tla rendered in one of five spellings (keywords / symbolic aliases with tight implicit products / literal-prefixed identifiers /"
+                " keyword-prefixed identifiers / compact: symbolic aliases without any blank that is not needed), parsed by the real front end and compared by value with Pratt!Parse at all assignments over {0,1,2,3,5,7};"
+                " non-trivial = at least 5 tokens; quick: seeded stride sample, thorough: every string in all five spellings",
         "exhaustive": tier == "thorough" and not replay,
         "families": meta,
         "unverifiable_overflow_count": len(v.overflow_ids),
